@@ -101,6 +101,13 @@ Definition lap_atom (L : Z) (f0 f1 f2 : Z -> R -> R) (Y : Z -> R) (r : R) : R :=
   rsum (map (fun kd : Z * Z => let (k, d) := kd in Y k * lap_row (f0 k r) (f1 k r) (f2 k r) (IZR d) r)
             (number 0%Z 1%Z (lap_degrees L))).
 
+(* interpolate_laplacian on a MolGrid with n atoms: closure i is called after the loop with the grid lap_grid_of i (n-1) and the
+   per-atom function object lap_slice_of i (n-1) (which carries the slice of func_vals * aim_weights in its defaults).
+   lap_at g s = atomic Laplacian on grid g of the values of slice s, at the evaluation point. *)
+Definition lap_mol (n : nat) (lap_at : nat -> nat -> R) : R :=
+  rsum (map (fun i => lap_at (lap_grid_of i (n - 1)) (lap_slice_of i (n - 1))) (seq 0 n)).
+Definition lap_mol_spec (n : nat) (lap_at : nat -> nat -> R) : R := rsum (map (fun i => lap_at i i) (seq 0 n)).
+
 (* ------------------------------------------------------------------ solve_poisson_robust *)
 Section Robust.
   Variable pt : Type.
